@@ -238,6 +238,34 @@ impl<'tcx> Cx<'tcx> {
                         if variants.len() == 1 {
                             o.push(("promoted_variant", s(variants[0].clone())));
                         }
+                        // a promoted `&NAMED_CONST` / `&literal` (e.g. `x.cmp(&CHUNK_SIZE)`): name the constant the promoted body copies
+                        let mut named: Vec<String> = Vec::new();
+                        let mut ints: Vec<i128> = Vec::new();
+                        for bbd in pb.basic_blocks.iter() {
+                            for st in bbd.statements.iter() {
+                                if let StatementKind::Assign(bx) = &st.kind {
+                                    if let Rvalue::Use(Operand::Constant(cc), ..) = &bx.1 {
+                                        if let Const::Unevaluated(u2, _) = cc.const_ {
+                                            if u2.promoted.is_none() {
+                                                named.push(tcx.def_path_str(u2.def));
+                                            }
+                                        }
+                                        let tenv2 = ty::TypingEnv::post_analysis(tcx, owner);
+                                        if let Ok(ConstValue::Scalar(mir::interpret::Scalar::Int(i))) = cc.const_.eval(tcx, tenv2, sp) {
+                                            if matches!(cc.const_.ty().kind(), TyKind::Uint(_)) {
+                                                ints.push(i.to_bits(i.size()) as i128);
+                                            }
+                                        }
+                                    }
+                                }
+                            }
+                        }
+                        if named.len() == 1 {
+                            o.push(("promoted_def", s(named[0].clone())));
+                        }
+                        if ints.len() == 1 {
+                            o.push(("promoted_int", V::I(ints[0])));
+                        }
                     }
                 }
             }
